@@ -38,6 +38,10 @@ fn same(d: &Dec, v: &vmi::Instruction) -> bool {
 #[kani::unwind(18)]
 fn c16_vm_decoder_agrees() {
     let w: u128 = kani::any();
+    // words with bits above the 2-bit extension field are rejected by both decoders up front
+    // (checked by the second harness); keeping them out of this one keeps the error path small
+    kani::assume(w >> 65 == 0);
+    kani::cover!(true, "reach:decoder");
     match decode_instruction(w) {
         Ok(v) => {
             let d = spec_decode(w);
@@ -47,4 +51,13 @@ fn c16_vm_decoder_agrees() {
         }
         Err(_) => {}
     }
+}
+
+//@ tier=thorough timeout=1200
+#[kani::proof]
+#[kani::unwind(18)]
+fn c16_vm_decoder_rejects_wide_words() {
+    let w: u128 = kani::any();
+    kani::assume(w >> 65 != 0);
+    assert!(decode_instruction(w).is_err() && spec_decode(w).is_none(), "C16-5 both decoders reject words beyond the extension field");
 }
